@@ -11,6 +11,8 @@ from . import facts as F
 TARGETS = {'i64': (-2.0 ** 63, 2.0 ** 63), 'u64': (-1.0, 2.0 ** 64), 'i32': (-2.0 ** 31, 2.0 ** 31), 'u32': (-1.0, 2.0 ** 32),
            'i128': (-2.0 ** 127, 2.0 ** 127), 'u128': (-1.0, 2.0 ** 128), 'isize': (-2.0 ** 63, 2.0 ** 63), 'usize': (-1.0, 2.0 ** 64),
            'i16': (-2.0 ** 15, 2.0 ** 15), 'u16': (-1.0, 2.0 ** 16), 'i8': (-128.0, 128.0), 'u8': (-1.0, 256.0)}
+INT_TYPES = ('i8', 'i16', 'i32', 'i64', 'i128', 'isize', 'u8', 'u16', 'u32', 'u64', 'u128', 'usize')
+INT_BITS = {'i8': 8, 'i16': 16, 'i32': 32, 'i64': 64, 'i128': 128, 'isize': 64, 'u8': 8, 'u16': 16, 'u32': 32, 'u64': 64, 'u128': 128, 'usize': 64}
 PASS_THROUGH = {'std::f64::<impl f64>::trunc'}   # monotone, integer-bound preserving (see module doc in DESIGN.md)
 
 
@@ -46,6 +48,12 @@ def value_key(b, o, depth=0):
             return value_key(b, rv['op'], depth + 1)
         if rv['k'] == 'Cast' and rv['kind'] == 'IntToFloat' and rv['op']['k'] == 'Const':
             return ('const', float(rv['op']['val']))
+        if rv['k'] == 'Cast' and rv['kind'] == 'IntToInt' and rv['op']['k'] == 'Const' and isinstance(rv['op'].get('val'), int) and not isinstance(rv['op'].get('val'), bool) and rv['to'] in INT_BITS:
+            v, bits = rv['op']['val'], INT_BITS[rv['to']]
+            v &= (1 << bits) - 1                       # `as` between integer types keeps the low bits
+            if rv['to'].startswith('i') and v >= 1 << (bits - 1):
+                v -= 1 << bits
+            return ('const', v if abs(v) > 2 ** 53 else float(v))
         if rv['k'] == 'UnaryOp' and rv['op'] == 'Neg':
             k = value_key(b, rv['a'], depth + 1)
             if k[0] == 'const' and k[1] is not None:
@@ -55,6 +63,10 @@ def value_key(b, o, depth=0):
 
 def const_float(b, o):
     v = o.get('val')
+    if isinstance(v, bool):
+        return float(v)
+    if isinstance(v, int) and abs(v) > 2 ** 53:
+        return v          # exact: Python compares int with float exactly, float(v) would round 2^63-1 up to 2^63
     if isinstance(v, (int, float)):
         return float(v)
     if isinstance(v, str):
@@ -81,7 +93,7 @@ def cond_of(b, l, depth=0):
             return ('isfinite', value_key(b, d['args'][0]))
         return None
     rv = d['rv']
-    if rv['k'] == 'BinaryOp' and rv['op'] in ('Lt', 'Le', 'Gt', 'Ge', 'Eq', 'Ne') and rv['lty'] in ('f64', 'f32'):
+    if rv['k'] == 'BinaryOp' and rv['op'] in ('Lt', 'Le', 'Gt', 'Ge', 'Eq', 'Ne') and (rv['lty'] in ('f64', 'f32') or rv['lty'] in INT_TYPES):
         return ('cmp', rv['op'], value_key(b, rv['l']), value_key(b, rv['r']))
     if rv['k'] == 'UnaryOp' and rv['op'] == 'Not':
         ll = F.op_local(rv['a'])
@@ -120,8 +132,8 @@ def mandatory_edges(b, target):
     return out
 
 
-def facts_at(b, block, key):
-    """(not_nan, lower bounds, upper bounds) known for value `key` on entry to `block`"""
+def facts_at(b, block, key, ints=False):
+    """(not_nan, lower bounds, upper bounds) known for value `key` on entry to `block`; ints: the value is an integer (no NaN)"""
     conds = []
     for s, l, taken in mandatory_edges(b, block):
         c = cond_of(b, l)
@@ -138,7 +150,7 @@ def facts_at(b, block, key):
             truth = not truth
         if c:
             conds.append((c, truth))
-    not_nan = False
+    not_nan = bool(ints)
     for c, truth in conds:
         if c[0] == 'isnan' and c[1] == key and not truth:
             not_nan = True
@@ -223,4 +235,37 @@ def check_float_to_int_casts(b, rep, rule):
         else:
             rep.violation(rule, 'unguarded-cast/%s/%s->%s' % (short, rv['from'], rv['to']), F.loc_of(s['span']),
                           '`as %s` on a float that is not proven in range: %s' % (rv['to'], why))
+    return n
+
+
+INT_RANGES = {'i8': (-2 ** 7, 2 ** 7 - 1), 'i16': (-2 ** 15, 2 ** 15 - 1), 'i32': (-2 ** 31, 2 ** 31 - 1), 'i64': (-2 ** 63, 2 ** 63 - 1), 'i128': (-2 ** 127, 2 ** 127 - 1), 'isize': (-2 ** 63, 2 ** 63 - 1),
+              'u8': (0, 2 ** 8 - 1), 'u16': (0, 2 ** 16 - 1), 'u32': (0, 2 ** 32 - 1), 'u64': (0, 2 ** 64 - 1), 'u128': (0, 2 ** 128 - 1), 'usize': (0, 2 ** 64 - 1)}
+
+
+def check_int_to_int_casts(b, rep, rule):
+    """every `as` between integer types whose target cannot hold all source values must sit behind guards that
+    bound the operand to the target range on every path (mandatory edges); returns the number of such casts"""
+    n = 0
+    for bi, j, s in b.stmts():
+        if s['k'] != 'Assign' or s['rv']['k'] != 'Cast' or s['rv']['kind'] != 'IntToInt' or s['rv']['op']['k'] == 'Const':
+            continue
+        fr, to = s['rv']['from'], s['rv']['to']
+        if fr not in INT_RANGES or to not in INT_RANGES:
+            continue
+        (slo, shi), (tlo, thi) = INT_RANGES[fr], INT_RANGES[to]
+        if tlo <= slo and shi <= thi:
+            continue
+        n += 1
+        fn = F.norm_path(b.path)
+        short = fn if fn.startswith('verif_fixtures') else fn.split('::', 1)[-1]
+        key = value_key(b, s['rv']['op'])
+        _, lows, highs = facts_at(b, bi, key, ints=True)
+        low_ok = slo >= tlo or any(v >= tlo or (strict and v >= tlo - 1) for v, strict in lows)
+        high_ok = shi <= thi or any(v <= thi or (strict and v <= thi + 1) for v, strict in highs)
+        if low_ok and high_ok:
+            rep.ok(rule, 'guarded-int-cast/%s/%s->%s' % (short, fr, to), F.loc_of(s['span']), 'operand bounded to the range of %s on every path' % to)
+        else:
+            rep.violation(rule, 'unguarded-int-cast/%s/%s->%s' % (short, fr, to), F.loc_of(s['span']),
+                          '`as %s` on a %s that is not proven to fit (%s): the value wraps, e.g. -1 as u64 == 18446744073709551615, so 18446744073709551615u == -1' %
+                          (to, fr, 'no lower bound >= %d' % tlo if not low_ok else 'no upper bound <= %d' % thi))
     return n
